@@ -45,6 +45,15 @@ def gen_dex_case(rng):
     V = [[x + 100.0 + rng.randint(0, 7) for x in row] for row in X]
     case = {"variant": variant, "CR": float(CR).hex(), "X": enc(np.array(X)), "V": enc(np.array(V)), "seed": rng.randrange(2 ** 31),
             "api": rng.choice(["do", "mask"])}
+    if case["api"] == "do" and rng.random() < 0.3:
+        # integer-coded or single-precision targets (e.g. after a rounding repair) with double-precision mutants
+        case["xdtype"] = rng.choice(["int64", "float32"])
+        if case["xdtype"] == "int64":
+            X = [[float(rng.randint(-20, 20)) for _ in range(v)] for _ in range(n)]
+            V = [[x + 100.0 + rng.randint(0, 7) + rng.choice([0.25, 0.5, 0.41]) for x in row] for row in X]
+        else:
+            V = [[x + 100.0 + rng.randint(0, 7) + rng.choice([1e-9, 0.1, 2.0 ** -40]) for x in row] for row in X]
+        case["X"] = enc(np.array(X)); case["V"] = enc(np.array(V))
     r = rng.random()
     if r < 0.4:
         # boundary draws: 0.0, exactly CR, just below/above CR, 1 - 2^-53
@@ -66,11 +75,11 @@ def run_dex(case):
     np.random.seed(case["seed"])
     with Recorder(rand_values=rv, int_values=case.get("int_values")) as rec:
         if case["api"] == "do":
-            pop = Population.new("X", X); mut = Population.new("X", V)
+            pop = Population.new("X", X.astype(case["xdtype"]) if "xdtype" in case else X); mut = Population.new("X", V)
             matings = np.column_stack([pop, mut]).view(Population)
             off = DEX(variant=case["variant"], CR=CR).do(None, matings)
             U = off.get("X")
-            Xa, Va = pop.get("X"), mut.get("X")
+            Xa, Va = pop.get("X").astype(float), mut.get("X")
         else:
             f = cross_binomial if case["variant"] == "bin" else cross_exp
             M = f(X.shape[0], X.shape[1], CR, True)
@@ -88,7 +97,7 @@ class C12(Check):
     ID = "C12"
     IMPORTS = "From PV Require Import Model.Cross."
     RULE = ("DEX(variant, CR).do on merged (target, mutant) populations and cross_binomial/cross_exp directly; targets dyadic, mutants = target+100+k so "
-            "the mask is observable; CR in {0, 2^-53, .1, .5, .7, .9, 1, random}; draws recorded, or scripted with boundary values (0, CR, CR+-1ulp, 1-2^-53) "
+            "the mask is observable; targets also integer-coded (int64) or single precision with double-precision mutants; CR in {0, 2^-53, .1, .5, .7, .9, 1, random}; draws recorded, or scripted with boundary values (0, CR, CR+-1ulp, 1-2^-53) "
             "and scripted randint; non-trivial = n_var >= 2; distinct by hash")
     ASSUMPTIONS = ["order-only theorems (any number type); CR=0/1 corollaries stated over Q with draws in [0,1)",
                    "'target and mutant are not modified' is a property of the functional model and an observation (array snapshots) on the implementation"]
@@ -119,6 +128,7 @@ class C12(Check):
         if "rand_values" in case: out.append("scripted-boundary-draws")
         if any(e[0] == "randint" and e[3] is None for e in obs["events"]): out.append("forced-coordinate")
         if len(case["X"][0]) == 1: out.append("n_var=1")
+        if "xdtype" in case: out.append("targets-" + case["xdtype"])
         return out
 
     def explain(self, case, obs):
